@@ -29,6 +29,8 @@ from .model import ClassInfo, FuncInfo, Program, dotted
 from .types import FuncScope, members, types_of
 
 MAX_ROUNDS = 3
+CM_DECORATORS = {'contextlib.contextmanager': 'sync', 'contextmanager': 'sync',
+                 'contextlib.asynccontextmanager': 'async', 'asynccontextmanager': 'async'}
 
 
 # ------------------------------------------------------------------------------------------------
@@ -282,6 +284,15 @@ class _Inliner:
                     if isinstance(s, ast.AnnAssign):
                         return self._expand(s, c, h, mode='assign', target=s.target, ann=s.annotation)
                     return self._expand(s, c, h, mode='expr', target=None)
+        # (D) `with helper(..):` where the helper is a @contextmanager generator with a single `yield`: the block takes the
+        # place of the yield inside the generator's body (PEP 343: an exception of the block is raised at the yield)
+        if isinstance(s, (ast.With, ast.AsyncWith)) and s.items and isinstance(s.items[0].context_expr, ast.Call):
+            c = s.items[0].context_expr
+            h = self._inlinable(c, False, cm='async' if isinstance(s, ast.AsyncWith) else 'sync')
+            if h is not None:
+                out = self._expand_cm(s, c, h)
+                if out is not None:
+                    return out
         # (C) nested call
         for root in self._header_exprs(s):
             parents: Dict[int, ast.AST] = {}
@@ -398,7 +409,7 @@ class _Inliner:
             cur = p
 
     # -- which callee ---------------------------------------------------------------------------------
-    def _inlinable(self, c: ast.Call, awaited: bool) -> Optional[FuncInfo]:
+    def _inlinable(self, c: ast.Call, awaited: bool, cm: Optional[str] = None) -> Optional[FuncInfo]:
         try:
             tg = self.ty.callees(c, self.scope)
         except RecursionError:
@@ -406,7 +417,9 @@ class _Inliner:
         if len(tg) != 1 or tg[0][0] != 'func' or not isinstance(tg[0][1], FuncInfo):
             return None
         h: FuncInfo = tg[0][1]
-        if h.module is not self.f.module or h.qualname in self.keep or h is self.f:
+        if h.qualname in self.keep or h is self.f:
+            return None
+        if h.module is not self.f.module and not (h.cls is None and self._same_globals(h)):
             return None
         if (not h.name.startswith('_') and '<any-name>' not in self.keep) or (h.name.startswith('__') and h.name.endswith('__')):
             return None
@@ -414,14 +427,20 @@ class _Inliner:
             return None
         if h.kind not in ('method', 'function', 'staticmethod', 'classmethod'):
             return None
-        if any(dotted(d) not in ('staticmethod', 'classmethod') for d in h.decorators):
+        decs = [dotted(d) for d in h.decorators]
+        cm_decs = [d for d in decs if d in CM_DECORATORS]
+        if cm is None and cm_decs:
             return None
-        if h.is_async != awaited:
+        if cm is not None and (len(cm_decs) != 1 or CM_DECORATORS[cm_decs[0]] != cm or h.is_async != (cm == 'async')):
+            return None
+        if any(d not in ('staticmethod', 'classmethod') and d not in CM_DECORATORS for d in decs):
+            return None
+        if cm is None and h.is_async != awaited:
             return None
         if any(isinstance(a, ast.Starred) for a in c.args) or any(k.arg is None for k in c.keywords):
             return None
         node = h.node
-        if _contains(node, (ast.Yield, ast.YieldFrom, ast.Global, ast.Nonlocal)) or \
+        if _contains(node, (ast.YieldFrom, ast.Global, ast.Nonlocal) + (() if cm else (ast.Yield,))) or \
                 any(isinstance(x, (ast.FunctionDef, ast.AsyncFunctionDef, ast.ClassDef)) for b in node.body for x in ast.walk(b)):
             return None
         for x in ast.walk(node):
@@ -442,6 +461,34 @@ class _Inliner:
                 if not _atomic(c.func.value):
                     return None
         return h
+
+    def _same_globals(self, h: FuncInfo) -> bool:
+        """A module-level helper of ANOTHER module can be inlined exactly when every global name it uses denotes the same
+        entity in the caller's module (imported under the same name) — or is a builtin in both."""
+        local = {p.arg for p in h.params}
+        for x in ast.walk(h.node):
+            if isinstance(x, ast.Name) and isinstance(x.ctx, (ast.Store, ast.Del)):
+                local.add(x.id)
+            elif isinstance(x, ast.ExceptHandler) and x.name:
+                local.add(x.name)
+            elif isinstance(x, ast.comprehension):
+                local |= {y.id for y in ast.walk(x.target) if isinstance(y, ast.Name)}
+        for b in list(h.node.body) + [d for d in h.node.args.defaults] + [d for d in h.node.args.kw_defaults if d is not None]:
+            for x in ast.walk(b):
+                if not isinstance(x, ast.Name) or x.id in local:
+                    continue
+                a = self.prog.module_attr(h.module, x.id) if x.id in h.module.ns else None
+                c = self.prog.module_attr(self.f.module, x.id) if x.id in self.f.module.ns else None
+                if a is None and c is None and x.id not in h.module.ns and x.id not in self.f.module.ns:
+                    continue        # builtin in both
+                if a is None or c is None:
+                    return False
+                if a is c or (isinstance(a, str) and a == c):
+                    continue
+                if isinstance(a, tuple) and isinstance(c, tuple) and len(a) == 3 and len(c) == 3 and a[1] is c[1] and a[2] is c[2]:
+                    continue
+                return False
+        return True
 
     # -- parameter binding ----------------------------------------------------------------------------
     def _bind(self, c: ast.Call, h: FuncInfo, allow_pre: bool) -> Tuple[Dict[str, ast.expr], Dict[str, str], List[ast.stmt]]:
@@ -665,6 +712,126 @@ class _Inliner:
         except _GiveUp:
             self.names = saved_names
             raise
+
+    def _expand_cm(self, s: ast.stmt, c: ast.Call, h: FuncInfo) -> Optional[List[ast.stmt]]:
+        """`with h(args) [as v][, more]: BLOCK`  ->  h's body with its single `yield [X]` statement replaced by `[v = X;] BLOCK`.
+        Exact when the generator has exactly one yield, as a statement outside any loop, no `return`, and — if BLOCK can leave
+        by return/break/continue — nothing but handlers / finally clauses follows the yield (the code after the yield runs in
+        __exit__ on those exits, but would be skipped by the jump once inlined)."""
+        body = _strip_doc(list(h.node.body))
+        ys = [x for b in body for x in ast.walk(b) if isinstance(x, (ast.Yield, ast.YieldFrom))]
+        if len(ys) != 1 or not isinstance(ys[0], ast.Yield) or _has_return(body):
+            return None
+        item = s.items[0]
+        if item.optional_vars is not None and not isinstance(item.optional_vars, ast.Name):
+            return None
+
+        def locate(stmts: List[ast.stmt], trailing: bool) -> Optional[bool]:
+            """None: not here; otherwise whether code follows the yield on the normal path"""
+            for i, st in enumerate(stmts):
+                if isinstance(st, ast.Expr) and st.value is ys[0]:
+                    return trailing or i + 1 < len(stmts)
+                if isinstance(st, (ast.For, ast.AsyncFor, ast.While)):
+                    if any(x is ys[0] for x in ast.walk(st)):
+                        raise _GiveUp()
+                    continue
+                more = trailing or i + 1 < len(stmts)
+                if isinstance(st, ast.Try):
+                    r = locate(st.body, more or bool(st.orelse))
+                    if r is not None:
+                        return r
+                    for part in [st.orelse, st.finalbody] + [hd.body for hd in st.handlers]:
+                        if any(x is ys[0] for b in part for x in ast.walk(b)):
+                            raise _GiveUp()
+                elif isinstance(st, (ast.If, ast.With, ast.AsyncWith)):
+                    for part in (st.body, getattr(st, 'orelse', [])):
+                        r = locate(part, more)
+                        if r is not None:
+                            return r
+                elif any(x is ys[0] for x in ast.walk(st)):
+                    raise _GiveUp()
+            return None
+        trailing = locate(body, False)
+        if trailing is None:
+            return None
+        jumps = _contains(ast.Module(body=s.body, type_ignores=[]), (ast.Return,)) or self._loop_jumps(s.body)
+        if trailing and jumps:
+            return None
+        hnames = {x.name for b in body for x in ast.walk(b) if isinstance(x, ast.ExceptHandler) and x.name}
+        if hnames & {x.id for b in s.body for x in ast.walk(b) if isinstance(x, ast.Name)}:
+            return None
+        if self.dry:
+            self._bind(c, h, allow_pre=True)
+            return []
+        saved_names = set(self.names)
+        try:
+            subst, rename, pre = self._bind(c, h, allow_pre=True)
+            body_c = copy.deepcopy(body)
+            # find the yield statement in the copy by position
+            orig_nodes = [x for b in body for x in ast.walk(b)]
+            copy_nodes = [x for b in body_c for x in ast.walk(b)]
+            ycopy = copy_nodes[[i for i, x in enumerate(orig_nodes) if x is ys[0]][0]]
+            yval = ycopy.value
+            ycopy.value = None
+            body2 = _fold([_Subst(subst, rename).visit(b) for b in body_c])
+            block: List[ast.stmt] = []
+            if item.optional_vars is not None:
+                v = _Subst(subst, rename).visit(yval) if yval is not None else ast.Constant(value=None)
+                st = ast.Assign(targets=[copy.deepcopy(item.optional_vars)], value=v)
+                ast.copy_location(st, s)
+                ast.fix_missing_locations(st)
+                block.append(st)
+            elif yval is not None and _contains(yval, (ast.Call, ast.Await)):
+                st2 = ast.Expr(value=_Subst(subst, rename).visit(yval))
+                ast.copy_location(st2, s)
+                ast.fix_missing_locations(st2)
+                block.append(st2)
+            if len(s.items) > 1:
+                inner = copy.copy(s)
+                inner.items = s.items[1:]
+                block.append(inner)
+            else:
+                block += s.body
+
+            def put(stmts: List[ast.stmt]) -> bool:
+                for i, st in enumerate(stmts):
+                    if isinstance(st, ast.Expr) and st.value is ycopy:
+                        stmts[i:i + 1] = block
+                        return True
+                    for fld in ('body', 'orelse', 'finalbody'):
+                        sub = getattr(st, fld, None)
+                        if isinstance(sub, list) and sub and isinstance(sub[0], ast.stmt) and put(sub):
+                            return True
+                    if isinstance(st, ast.Try):
+                        for hd in st.handlers:
+                            if put(hd.body):
+                                return True
+                return False
+            if not put(body2):
+                raise _GiveUp()
+            for p in pre:
+                ast.copy_location(p, s)
+                ast.fix_missing_locations(p)
+            self.log.append(f'{self.f.qualname}: context manager `{h.name}` inlined around the block (line {c.lineno})')
+            return pre + body2
+        except _GiveUp:
+            self.names = saved_names
+            raise
+
+    @staticmethod
+    def _loop_jumps(stmts: Sequence[ast.stmt]) -> bool:
+        """break/continue in `stmts` that target a loop outside them"""
+        stack = list(stmts)
+        while stack:
+            n = stack.pop()
+            if isinstance(n, (ast.Break, ast.Continue)):
+                return True
+            if isinstance(n, (ast.For, ast.AsyncFor, ast.While, ast.FunctionDef, ast.AsyncFunctionDef, ast.ClassDef, ast.Lambda)):
+                if isinstance(n, (ast.For, ast.AsyncFor, ast.While)):
+                    stack += n.orelse
+                continue
+            stack += list(ast.iter_child_nodes(n))
+        return False
 
     def _elim(self, stmts: List[ast.stmt], mk) -> List[ast.stmt]:
         out: List[ast.stmt] = []
